@@ -378,7 +378,7 @@ pub fn checks() -> Vec<CheckDef> {
         "single-component-substitution",
         "generated substitutions on accepted originals: establish tuple (key, channel id [one bit / fresh], customer and merchant balance [+1, -1, fresh], context [one byte changed, one byte longer, fresh]); pay tuple (key, range parameters, revocation parameters [merchants built with from_parts differing in exactly one part], nonce [fresh, +1], amount [+1, -1, negated, 0], context [byte, fresh]); replay of recorded establish proofs, closing signatures and pay tokens (establish and pay phase) between 4 sessions on 2 merchants; closing messages from Inactive/Ready/Started/Locked with channel id, lock, merchant balance or customer balance replaced by the value of another state/channel, a near value or a fresh value; oracle (metamorphic): the original is accepted and every substituted variant is rejected / refused / fails the close check; distinct by case",
         &["establish/Key", "establish/CtxByte", "pay/RevParams", "pay/AmountNegated", "replay/pay-token(pay)/other-channel", "closing/started/revocation_lock"],
-        (2100, 50_000),
+        (2100, 150_000),
         strategy,
         oracle,
     )]
